@@ -6,7 +6,7 @@
 (* trace is examined) and recorded in `bad' as <<line, property, detail>>. *)
 (* The last step writes `bad' to IOEnv.VOUT as JSON.                       *)
 (***************************************************************************)
-EXTENDS Session, Json, IOUtils
+EXTENDS Session, Json, IOUtils, SequencesExt
 
 Trace == ndJsonDeserialize(IOEnv.TRACE)
 
@@ -104,6 +104,27 @@ StepShift ==
        \cup NonEmpty({Viol("C18", "position in " \o Ev.k \o " result not moved by the inserted lines/bytes", BadMoves(Ev))})
   /\ UNCHANGED svars
 
+\* C11: the raw answers of go-to-definition at an origin and of find-references at the definition of every reported
+\* declaration.  Resolve is one relation: whenever go-to-definition reports a declaration that has a definition range,
+\* find-references asked there reports the origin; path origins resolve in their target path; block-local names
+\* (self / count / each) never leave the block they are written in.
+LookupViol(e) ==
+  LET me == <<e.p, e.orange[1], e.orange[2], e.orange[3]>> IN
+  (IF e.status = "panic" THEN {[l |-> l, prop |-> "C11", what |-> "go-to-definition panicked", n |-> 1, first |-> 0]} ELSE {})
+  \cup { [l |-> l, prop |-> "C11", what |-> "find-references at the definition of a declaration does not report an origin that go-to-definition resolves to it (" \o e.okind \o " origin)", n |-> 1, first |-> i]
+         : i \in {i \in DOMAIN e.targets : e.targets[i].def # <<>> /\ me \notin {<<r[1], r[2], r[3], r[4]>> : r \in ToSet(e.targets[i].refs)}} }
+  \cup { [l |-> l, prop |-> "C11", what |-> "an origin is resolved against a path other than its own / its declared target path", n |-> 1, first |-> i]
+         : i \in {i \in DOMAIN e.targets : e.targets[i].p \notin {k[2] : k \in ToSet(e.okinds)}} }
+  \cup { [l |-> l, prop |-> "C11", what |-> "a block-local name (self / count / each) resolves to a declaration in another block", n |-> 1, first |-> i]
+         : i \in {i \in DOMAIN e.targets : e.local /\ e.targets[i].tblock # e.oblock} }
+  \cup { [l |-> l, prop |-> "C11", what |-> "go-to-definition reports an origin range other than the origin asked about", n |-> 1, first |-> i]
+         : i \in {i \in DOMAIN e.targets : e.targets[i].origin # e.orange} }
+
+StepLookup ==
+  /\ Ev.ev = "Lookup"
+  /\ bad' = bad \cup LookupViol(Ev)
+  /\ UNCHANGED svars
+
 \* A data race (reported by the race detector of the instrumented build) or a transient write to shared state
 \* is an implementation event no action of Session / Concurrent allows.
 StepRace ==
@@ -120,7 +141,7 @@ Finish ==
 TNext ==
   \/ /\ l <= Len(Trace)
      /\ l' = l + 1
-     /\ (StepInit \/ StepLoad \/ StepCollect \/ StepQuery \/ StepDet \/ StepInsert \/ StepShift \/ StepRace)
+     /\ (StepInit \/ StepLoad \/ StepCollect \/ StepQuery \/ StepDet \/ StepInsert \/ StepShift \/ StepRace \/ StepLookup)
   \/ Finish
 
 TSpec == TInit /\ [][TNext]_tvars
